@@ -6,7 +6,14 @@
 // calls:  0 open | 3 stop_streaming | 4 close | 5 params access (params_ctxt + TLParamsLocked.value)
 //         10+cap start_streaming(cap) | 20+v load_context, the device serves XML variant v
 //         v = t + 3*s + 9*p with t/s/p in {0 good, 1 missing, 2 wrong interface} for TLParamsLocked /
-//         AcquisitionStart / AcquisitionStop; v = 27: the device serves text that is not a GenApi document.
+//         AcquisitionStart / AcquisitionStop; v = 27: the device serves text that is not a GenApi document;
+//         48 load_context, the device serves the conforming description in which TLParamsLocked is an Integer
+//            with <pValue>TLParamsLockedReg</pValue> AND <pValueCopy>TLParamsLockedMirrorReg</pValueCopy>
+//         60+k (k = 0..3) bank access: params_ctxt, BankSelector.set_value(k), BankReg.value()   (every
+//            description that parses defines BankReg = <IntReg> at 0x2000 + <pIndex Offset="4">BankSelector</pIndex>,
+//            4 bytes, WriteThrough: one cache block per slot); the value read is the call's <value>
+//         1000 + 256*k + v (k = 0..3, v = 0..255): the ENVIRONMENT: the device's own memory of bank slot k becomes
+//            v, behind the host's cache; no camera method is called, nothing is logged
 // failure plan: the <op index>-th fallible fake operation (0-based, counted per call, in execution
 // order; EVERY invocation of a fake method counts, so a repeated access is a second operation) of
 // call <call index> returns an error of the given fault class WITHOUT having any effect.
@@ -26,11 +33,14 @@
 // effect codes: 1 CtrlOpen 2 StrmOpen 3 GenApiFetch 4 EnableStreaming 5 SetTLParamsLocked(1)
 //   6 SetTLParamsLocked(0) 7 AcquisitionStart 8 AcquisitionStop 9 LoopStart 10 LoopStop
 //   11 DisableStreaming 12 CtrlClose 13 StrmClose 15 read of the TLParamsLocked register
+//   16 / 17 write of 1 / 0 to the mirror register of TLParamsLocked (its <pValueCopy>)
+//   30+k device read of bank slot k
 //   90 a w v: unexpected register write, 91 a n: unexpected register read
 // flags (state after the call): 1 strm.is_loop_running() | 2 camera.ctxt is Some | 4/8/16 a value of the
 //   TLParamsLocked / AcquisitionStart / AcquisitionStop register is cached in the context |
 //   32 ctrl opened | 64 strm opened | 128 stream enabled on the device | 256 TLParamsLocked register != 0 |
-//   512 device is acquiring
+//   512 device is acquiring | 1024 mirror register != 0 | 2048 a value of the mirror register is cached |
+//   4096 << k a block of bank slot k is cached (ValueCtxt::get_cache)
 use std::cell::RefCell;
 use std::io::{BufRead, Write};
 use std::panic::{catch_unwind, AssertUnwindSafe};
@@ -48,6 +58,9 @@ use cameleon_genapi::GenApiError;
 const A_TL: u64 = 0x1000;
 const A_START: u64 = 0x1004;
 const A_STOP: u64 = 0x1008;
+const A_MIRROR: u64 = 0x100C;
+const A_BANK: u64 = 0x2000;
+const NBANK: usize = 4;
 
 #[derive(Default)]
 struct World {
@@ -55,6 +68,8 @@ struct World {
     strm_opened: bool,
     enabled: bool,
     tl: u32,
+    mirror: u32,
+    bank: [u32; NBANK],
     acquiring: bool,
     alive: bool,
     variant: usize,
@@ -165,10 +180,12 @@ fn int_reg(name: &str, addr: u64, access: &str) -> String {
 }
 
 fn xml(variant: usize) -> String {
-    if variant >= 27 {
+    if variant == 27 || variant > 28 {
         return "this is not a GenApi document".into();
     }
-    let (t, s, p) = (variant % 3, (variant / 3) % 3, (variant / 9) % 3);
+    // 28: the conforming description with a <pValueCopy> mirror of TLParamsLocked
+    let copy = variant == 28;
+    let (t, s, p) = if copy { (0, 0, 0) } else { (variant % 3, (variant / 3) % 3, (variant / 9) % 3) };
     let mut x = String::from(
         "<RegisterDescription ModelName=\"M\" VendorName=\"V\" StandardNameSpace=\"None\" \
          SchemaMajorVersion=\"1\" SchemaMinorVersion=\"1\" SchemaSubMinorVersion=\"0\" MajorVersion=\"1\" \
@@ -179,12 +196,26 @@ fn xml(variant: usize) -> String {
          xmlns:xsi=\"http://www.w3.org/2001/XMLSchema-instance\" \
          xsi:schemaLocation=\"http://www.genicam.org/GenApi/Version_1_0 GenApiSchema.xsd\">",
     );
-    x += &feature("TLParamsLocked", t, false, "TLParamsLockedReg");
+    if copy {
+        x += "<Integer Name=\"TLParamsLocked\"><pValue>TLParamsLockedReg</pValue>\
+              <pValueCopy>TLParamsLockedMirrorReg</pValueCopy></Integer>";
+        x += &int_reg("TLParamsLockedMirrorReg", A_MIRROR, "RW");
+    } else {
+        x += &feature("TLParamsLocked", t, false, "TLParamsLockedReg");
+    }
     x += &feature("AcquisitionStart", s, true, "AcquisitionStartReg");
     x += &feature("AcquisitionStop", p, true, "AcquisitionStopReg");
     x += &int_reg("TLParamsLockedReg", A_TL, "RW");
     x += &int_reg("AcquisitionStartReg", A_START, "RW");
     x += &int_reg("AcquisitionStopReg", A_STOP, "RW");
+    // a selector-addressed register bank: BankReg[BankSelector] at A_BANK + 4 * BankSelector
+    x += "<Integer Name=\"BankSelector\"><Value>0</Value><Min>0</Min><Max>3</Max></Integer>";
+    x += &format!(
+        "<IntReg Name=\"BankReg\"><Address>{}</Address><pIndex Offset=\"4\">BankSelector</pIndex>\
+         <Length>4</Length><AccessMode>RW</AccessMode><pPort>Device</pPort><Cachable>WriteThrough</Cachable>\
+         <Sign>Unsigned</Sign><Endianess>LittleEndian</Endianess></IntReg>",
+        A_BANK
+    );
     x += "<Port Name=\"Device\"></Port></RegisterDescription>";
     x
 }
@@ -220,6 +251,18 @@ impl DeviceControl for FakeCtrl {
             let v = w.tl;
             buf.copy_from_slice(&v.to_le_bytes());
             w.eff(&[15]);
+        } else if address >= A_BANK
+            && address < A_BANK + 4 * NBANK as u64
+            && (address - A_BANK) % 4 == 0
+            && buf.len() == 4
+        {
+            let k = ((address - A_BANK) / 4) as usize;
+            if let Some(c) = w.op(30 + k as i128) {
+                return Err(cerr(c));
+            }
+            let v = w.bank[k];
+            buf.copy_from_slice(&v.to_le_bytes());
+            w.eff(&[30 + k as i128]);
         } else {
             if let Some(k) = w.op(91) {
                 return Err(cerr(k));
@@ -243,6 +286,8 @@ impl DeviceControl for FakeCtrl {
             (A_TL, 0) => 6,
             (A_START, 1) => 7,
             (A_STOP, 1) => 8,
+            (A_MIRROR, 1) => 16,
+            (A_MIRROR, 0) => 17,
             _ => 90,
         };
         if let Some(k) = w.op(code) {
@@ -264,6 +309,14 @@ impl DeviceControl for FakeCtrl {
             8 => {
                 w.acquiring = false;
                 w.eff(&[8]);
+            }
+            16 => {
+                w.mirror = 1;
+                w.eff(&[16]);
+            }
+            17 => {
+                w.mirror = 0;
+                w.eff(&[17]);
             }
             _ => {
                 if address == A_TL && data.len() == 4 {
@@ -383,6 +436,23 @@ fn params_access(cam: &mut Cam) -> Result<i64, CameleonError> {
     Ok(node.value(&mut ctxt)?)
 }
 
+// the "bank access" call: select slot k, read the bank register through the camera's params context
+fn bank_access(cam: &mut Cam, k: i64) -> Result<i64, CameleonError> {
+    let mut ctxt = cam.params_ctxt()?;
+    let sel = ctxt
+        .node("BankSelector")
+        .ok_or_else(|| CameleonError::InvalidGenApiXml("missing BankSelector".into()))?
+        .as_integer(&ctxt)
+        .ok_or_else(|| CameleonError::InvalidGenApiXml("BankSelector has invalid interface".into()))?;
+    sel.set_value(&mut ctxt, k)?;
+    let bank = ctxt
+        .node("BankReg")
+        .ok_or_else(|| CameleonError::InvalidGenApiXml("missing BankReg".into()))?
+        .as_integer(&ctxt)
+        .ok_or_else(|| CameleonError::InvalidGenApiXml("BankReg has invalid interface".into()))?;
+    Ok(bank.value(&mut ctxt)?)
+}
+
 fn cached(cam: &Cam, reg: &str, addr: u64) -> bool {
     match cam.ctxt.as_ref() {
         None => false,
@@ -420,8 +490,13 @@ fn run_case(toks: &[&str]) -> Option<Vec<i128>> {
                 .filter(|p| p[0] == ci as i128)
                 .map(|p| (p[1], p[2]))
                 .collect();
-            if (20..=47).contains(&c) {
+            if (20..=48).contains(&c) {
                 w.variant = (c - 20) as usize;
+            }
+            if (1000..1000 + 256 * NBANK as i128).contains(&c) {
+                // the environment changes the device's memory behind the host's cache
+                let k = ((c - 1000) / 256) as usize;
+                w.bank[k] = ((c - 1000) % 256) as u32;
             }
         }
         let mut val: i128 = -1;
@@ -432,7 +507,8 @@ fn run_case(toks: &[&str]) -> Option<Vec<i128>> {
                 4 => cam.close().map(|_| -1),
                 5 => params_access(&mut cam).map(|v| v as i128),
                 10..=19 => cam.start_streaming((c - 10) as usize).map(|_| -1),
-                20..=47 => cam.load_context().map(|_| -1),
+                20..=48 => cam.load_context().map(|_| -1),
+                60..=63 => bank_access(&mut cam, (c - 60) as i64).map(|v| v as i128),
                 _ => Ok(-1),
             }
         }));
@@ -482,6 +558,17 @@ fn run_case(toks: &[&str]) -> Option<Vec<i128>> {
         }
         if w.acquiring {
             flags |= 512;
+        }
+        if w.mirror != 0 {
+            flags |= 1024;
+        }
+        if cached(&cam, "TLParamsLockedMirrorReg", A_MIRROR) {
+            flags |= 2048;
+        }
+        for k in 0..NBANK {
+            if cached(&cam, "BankReg", A_BANK + 4 * k as u64) {
+                flags |= 4096 << k;
+            }
         }
         out.push(flags);
     }
